@@ -48,7 +48,8 @@ RULE = ("per case a history of tracked allocations through a private MemoryLeakD
         "default and in the thread-safe overload mode (switched in the middle of histories), with the default allocators, the "
         "NullUnknownAllocator and the CrashOnAllocationAllocator as current allocator; sizes: every size 0..4096 (thorough; dense sample in "
         "quick), powers of two +-3, the top 64 values of SIZE_MAX and the neighbourhood of the overflow guard, calloc pairs around "
-        "num*size = 2^64, strings of length 0..300 x strndup n; fault schedules: the k-th call of alloc_memory / allocMemoryLeakNode / "
+        "num*size = 2^64, SUCCESSFUL requests of 2^32+k bytes (k in 0,1,16,4096: alloc / realloc small->huge->larger->small / free on a lazily "
+        "backed mapping, observed through the first and last 32 bytes), strings of length 0..300 x strndup n; fault schedules: the k-th call of alloc_memory / allocMemoryLeakNode / "
         "PlatformSpecificRealloc / PlatformSpecificMalloc answers NULL for every k of a workload (thorough); non-trivial = at least one "
         "successful and one failed request, or a realloc; distinct = distinct op sequences")
 
@@ -557,6 +558,33 @@ def known_cases(rng, n):
     return out
 
 
+BIG = 1 << 32
+BIG_K = [0, 1, 16, 4096]
+
+
+def big_cases(rng, ks=BIG_K):
+    """SUCCESSFUL tracked requests of 2^32 + k bytes (the recording allocator answers them with a lazily backed mapping):
+    alloc / write first and last bytes / realloc (small -> huge -> larger -> small) / free, observed through the edges"""
+    out = []
+    for k in ks:
+        fam, sep = rng.choice(FAMS), rng.choice([0, 1])
+        out.append(("big", ["config", "balloc %s %d B1 %d %d" % (fam, BIG + k, rng.randrange(1, 200), sep), "bfree B1", "finish"]))
+        fam, sep = rng.choice(FAMS), rng.choice([0, 1])
+        small, k2 = rng.choice([1, 8, 20, 33, 100, 257]), rng.choice([j for j in (1, 16, 4096, 8192) if j > k])
+        out.append(("big", ["config",
+                            "balloc %s %d B1 %d %d" % (fam, small, rng.randrange(1, 200), sep),
+                            "brealloc %s B1 %d B2 %d %d" % (fam, BIG + k, rng.randrange(1, 200), sep),
+                            "brealloc %s B2 %d B3 %d %d" % (fam, BIG + k2, rng.randrange(1, 200), sep),
+                            "brealloc %s B3 %d B4 %d %d" % (fam, rng.choice([5, 40, 64, 1000]), rng.randrange(1, 200), sep),
+                            "bfree B4", "finish"]))
+        fam, sep = rng.choice(FAMS), rng.choice([0, 1])
+        out.append(("big", ["config", "alloc %s %d b1 %d" % (rng.choice(FAMS), rng.randrange(1, 300), rng.randrange(1, 200)),
+                            "brealloc %s null %d B1 %d %d" % (fam, BIG + k, rng.randrange(1, 200), sep),
+                            "balloc %s %d B2 %d %d" % (rng.choice(FAMS), BIG + rng.choice(BIG_K), rng.randrange(1, 200), rng.choice([0, 1])),
+                            "peek b1", "finish"]))
+    return out
+
+
 def chunks(xs, n):
     return [xs[i:i + n] for i in range(0, len(xs), n)]
 
@@ -643,6 +671,8 @@ def generate(rng, tier):
     # 7. malformed stream
     for i in range(1000 if thorough else 60):
         out.append(("malformed", malformed_case(rng)))
+    # 7b. successful requests of 2^32 + k bytes
+    out += big_cases(rng)
     # 8. the listed findings
     out += known_cases(rng, 12 if thorough else 4)
     return out
@@ -720,6 +750,8 @@ def observe(r, rep):
             continue
         kind = "ptr" if re.fullmatch(r"ret \d+ \d+", ret) else ret.split()[1]
         rep.count("ret.%s.%s" % (name, kind))
+        if name in ("balloc", "brealloc") and kind == "ptr" and int(w[3 if name == "balloc" else 4]) >= BIG:
+            rep.count("branch.request_of_2^32_bytes_or_more_succeeded")
         env_null = any(re.fullmatch(r"(ualloc|unode|pm) \d+ 0", o) or re.fullmatch(r"urealloc \d+ \d+ 0", o) for o in obs)
         called = any(o.split()[0] in ("ualloc", "pm", "urealloc") for o in obs)
         if kind != "ptr":
@@ -766,6 +798,8 @@ def extra(ctx, exe):
         pts = [p for p in fault_points(w) if p[0] != "pmalloc" or True]
         for p in (pts if thorough else rng.sample(pts, min(len(pts), 4))):
             cases.append(("nc-fault:%d" % len(cases), fault_case(w, [p])))
+    for i, (_, ops) in enumerate(big_cases(rng, [16, 4096])):
+        cases.append(("nc-big:%d" % i, ops))
     for i in range(60 if thorough else 5):
         cases.append(("nc-oom:%d" % i, oom_case(rng)))
     for i in range(100 if thorough else 10):
